@@ -25,7 +25,7 @@ LEVEL = "exploration"
 ENGINE = "vloop"
 BUDGET = {"quick": (400, 16), "thorough": (30000, 220)}
 WORKERS = {"quick": 4, "thorough": 16}
-REQUIRED = ["sequential", "queue_order", "outcome", "never_queued", "stop_restores", "inflight_not_queued", "killed_inflight_then_resubmitted"]
+REQUIRED = ["sequential", "queue_order", "outcome", "never_queued", "stop_restores", "inflight_not_queued", "killed_inflight_then_resubmitted", "stop_empties_queue", "stop_with_duplicate_submission"]
 TECHNIQUE = "runtime monitoring: real ClientPlayback on a virtual-time loop with an in-memory origin; ordered event-log checker"
 RULE = (
     "case = (1-8 flows of kinds replayable / live / intercepted / no-content / tcp / websocket / already-modified, per-flow origin plan, "
@@ -52,6 +52,10 @@ class Recorder:
 
     def request(self, f):
         self.log.append(("request_hook", f.request.path, self.loop.now()))
+
+    def requestheaders(self, f):
+        # first hook of every replay: a replay of a flow that was killed in the meantime ends before the request hook
+        self.log.append(("replay_start", f.request.path, self.loop.now()))
 
 
 def state_wo_backup(f):
@@ -160,8 +164,18 @@ def run_case(ctx, r):
             before = [state_wo_backup(f) for f in flows]
             result.update(flows=flows, before=before, kinds=kinds, plans=dict(plans))
             cp.running()
+            submit = list(flows)
+            dup = None
+            if r.random() < 0.25:
+                # the same flow submitted twice (e.g. selected twice in the UI): both copies are queued
+                cand = [i for i, (f, k) in enumerate(zip(flows, kinds)) if k in ("ok", "modified")]
+                if cand:
+                    i = r.choice(cand[:2])
+                    submit.insert(i + 1, flows[i])
+                    dup = flows[i]
+            result["dup"] = dup is not None
             log.append(("start_replay", None, loop.now()))
-            cp.start_replay(flows)
+            cp.start_replay(submit)
             result["queued_after_start"] = cp.count()
             stop_at = r.choice([None, None, 0.0, 0.3, 1.0, 4.0, 30.0])
             result["stop_at"] = stop_at
@@ -177,6 +191,7 @@ def run_case(ctx, r):
                 log.append(("stop", None, loop.now()))
                 cp.stop_replay()
                 stopped["done"] = True
+                result["left_in_queue_by_stop"] = [f.request.path for f in cp.queue._queue]
                 result["after_stop"] = [(f, state_wo_backup(f), f.get_state().get("backup")) for f in q]
 
             if stop_at is not None:
@@ -188,13 +203,14 @@ def run_case(ctx, r):
                 # optionally the user kills the flow that is being replayed right now, then submits everything again:
                 # the in-flight flow is not replayable (it is being replayed), whatever its live flag says
                 infl = cp.inflight
+                n_before = sum(1 for q in cp.queue._queue if q is infl)  # a duplicate submitted earlier may legitimately wait there
                 if kill_inflight and infl is not None and infl.killable:
                     infl.kill()
                     log.append(("kill_inflight", infl.request.path, loop.now()))
                     result["killed_inflight"] = infl
                 log.append(("start_replay", None, loop.now()))
                 cp.start_replay([f for f in flows if isinstance(f, http.HTTPFlow)])
-                if infl is not None and cp.inflight is infl and any(q is infl for q in cp.queue._queue):
+                if infl is not None and cp.inflight is infl and sum(1 for q in cp.queue._queue if q is infl) > n_before:
                     result["inflight_queued_again"] = infl.request.path
 
             if resubmit:
@@ -261,8 +277,14 @@ def check(ctx, result, log):
             inflight = e[1]
         elif e[0] in ("response", "error") and e[1] == inflight:
             inflight = None
+    if "left_in_queue_by_stop" in result:
+        ctx.count("stop_empties_queue")
+        if result["dup"]:
+            ctx.count("stop_with_duplicate_submission")
+        if result["left_in_queue_by_stop"]:
+            ctx.violation("stop-leaves-flows-queued", {**witness, "left": result["left_in_queue_by_stop"], "duplicate_submission": result["dup"]})
     ctx.count("queue_order")
-    if not result.get("resubmit"):
+    if not result.get("resubmit") and not result.get("dup"):
         arrivals = [e[1] for e in log if e[0] == "arrival"]
         req_hooks = [e[1] for e in log if e[0] == "request_hook"]
         want = [path(f) for f in replayable]
@@ -277,10 +299,10 @@ def check(ctx, result, log):
         stopped_paths = {path(f) for f in result.get("queued_at_stop", [])}
         for f in replayable:
             p = path(f)
-            started = any(e[0] == "request_hook" and e[1] == p for e in log)
+            started = any(e[0] == "replay_start" and e[1] == p for e in log)
             outs = [e[0] for e in log if e[0] in ("response", "error") and e[1] == p]
             if started:
-                n_expected = sum(1 for e in log if e[0] == "request_hook" and e[1] == p)
+                n_expected = sum(1 for e in log if e[0] == "replay_start" and e[1] == p)
                 if len(outs) != n_expected:
                     ctx.violation("replayed-flow-without-exactly-one-outcome", {**witness, "path": p, "outcomes": outs, "replays_started": n_expected})
                 elif not (f.response or f.error) and p not in stopped_paths:
